@@ -28,3 +28,6 @@ done
 # written by a few lines of Python (see the commit that added them), OpenSSL has no option for it
 openssl genpkey -algorithm ED448 -outform DER -out ed448_1.pkcs8.der
 chmod 644 *
+# keys whose DER ends in a byte that text tools treat specially (0x0a, 0x0d 0x0a, 0x20, 0x00): key files are binary.
+# ed25519_6{lf,crlf,sp,nul}: PKCS#8 v1 framing + a seed with the wanted tail (a few lines of Python, see the commit);
+# p256_6lf / p384_6lf: `openssl genpkey` repeated until the last byte of the public key (= of the file) is 0x0a
